@@ -13,7 +13,7 @@
    Byte strings are lists of N with every element < 256 (bytes_ok) and a length that fits
    `unsigned int`.  `prev` is the value a previous call left in m_variable_field_size. *)
 From OlaBase Require Import Bytes.
-From C14 Require Import Model Spec Loader PidDescs ProofsA ProofsB ProofsC ProofsD ProofsE.
+From C14 Require Import Model Spec Loader PidDescs ProofsA ProofsB ProofsC ProofsD ProofsE ProofsF.
 Local Open Scope N_scope.
 
 (* Decoding never reads outside the supplied bytes (Oob is the model's outcome for any such read:
@@ -342,3 +342,59 @@ Example ex_loader :
   load_model false 32768 65504
     ([([80], 16, [Some [PF 5 None (Some 8) []; PF 5 None (Some 8) []]; None; None; None])], []) <> None.
 Proof. vm_compute. repeat split; try reflexivity. discriminate. Qed.
+
+(* Overrides, derived from the loader model (BuildStore: overrides.proto first, then the main data,
+   GetPidList skips a (manufacturer, value) that is already present).  For ANY overrides and main
+   data the model accepts: what the overrides defined stays, unchanged, at the front of the result;
+   no (manufacturer, value) occurs twice, so an overridden key denotes the override's definition;
+   and every definition of the main data has its key present afterwards -- none vanishes, in
+   particular not the other PIDs of a manufacturer that has one PID overridden. *)
+Theorem c14_loader_merge : forall validate lo hi ovr main Lo io L ids,
+  load_proto validate lo hi ovr [] [] = Some (Lo, io) ->
+  load_proto validate lo hi main Lo io = Some (L, ids) ->
+  load_model_ovr validate lo hi ovr main = Some (L, ids) /\
+  (exists ext, L = Lo ++ ext) /\ nodupb keq_value (pids_of L) = true /\
+  (forall p, In p (fst main) -> has_key L 0 (pkey16 p) = true) /\
+  (forall id blk p, In (id, blk) (snd main) -> In p blk -> has_key L (id mod 65536) (pkey16 p) = true).
+Proof.
+  intros validate lo hi ovr main Lo io L ids Ho Hm.
+  assert (Hn : NoDup (map lkey Lo)).
+  { destruct (load_proto_merge validate lo hi ovr [] [] Lo io (NoDup_nil _) Ho) as (_ & H & _). exact H. }
+  destruct (load_proto_merge validate lo hi main Lo io L ids Hn Hm) as (H1 & H2 & H3 & H4).
+  repeat split; try assumption.
+  - unfold load_model_ovr. now rewrite Ho.
+  - now apply nodup_keys_value.
+Qed.
+Print Assumptions c14_loader_merge.
+
+(* ... and on the shipped data with a concrete overrides.proto (an ESTA PID, one of the seven PIDs of
+   manufacturer 0x7a70, a manufacturer nobody ships) the loader model yields exactly the tables
+   override_descs / override_pids / override_ids of c14_override_semantics, with all seven PIDs of
+   0x7a70 still present; validation on and off. *)
+Theorem c14_loader_model_overrides_shipped :
+  loader_ovr_matches true = true /\ loader_ovr_matches false = true.
+Proof. exact shipped_loader_ovr_matches. Qed.
+Print Assumptions c14_loader_model_overrides_shipped.
+
+(* Names: a validating load (no overrides) of data that has no manufacturer block numbered 0 modulo
+   2^16 gives every store pairwise different PID names.  The side condition is needed, see
+   ex_loader_duplicate_names. *)
+Theorem c14_loader_model_names : forall lo hi p L ids,
+  (forall id blk, In (id, blk) (snd p) -> id mod 65536 <> 0) ->
+  load_model true lo hi p = Some (L, ids) -> nodupb keq_name (pids_of L) = true.
+Proof. exact load_model_names. Qed.
+Print Assumptions c14_loader_model_names.
+
+(* The validating loader ACCEPTS data with two definitions of the same name in one store: a
+   manufacturer block with manufacturer_id 0 (or 65536) is merged into the ESTA store, and the
+   duplicate-name check only looks at one block at a time.  PidStore then indexes both by value but
+   only one by name (std::map: the one with the larger value wins), so LookupPID(name) /
+   GetDescriptor(name, id) silently prefer that one; the harness digest flags such a store
+   (NAME-INDEX-SIZE).  No shipped file has such a block (c14_loader_rules, c14_store_consistent). *)
+Example ex_loader_duplicate_names :
+  load_model true 32768 65504
+    ([([80], 16, [None; None; None; None])], [(0, [([80], 17, [None; None; None; None])])]) =
+  Some ([((0, 16), [80], [None; None; None; None]); ((0, 17), [80], [None; None; None; None])], [0]) /\
+  load_model true 32768 65504
+    ([([80], 16, [None; None; None; None])], [(65536, [([80], 17, [None; None; None; None])])]) <> None.
+Proof. vm_compute. split; [reflexivity|discriminate]. Qed.
